@@ -24,6 +24,17 @@ from . import compare, drive, ref
 from . import monitors as M
 
 SQL_PERMITTED = {"SubqueryError", "NotSupportedError"}
+import re as _re
+
+# D16: Polars' horizontal min/max returns a length-1 series for columns that originate from literals or
+# from join padding (reproduced in pure Polars, see DESIGN section 4 D16)
+ENGINE_BUG_RE = _re.compile(
+    r"_horizontal\(.*to be broadcasted, ensure it is a scalar|sort expressions must have same length as DataFrame", _re.S
+)
+
+
+def _has_horizontal(prog):
+    return '"op": "hm' in __import__("json").dumps(prog)
 
 
 @dataclasses.dataclass
@@ -53,6 +64,7 @@ class Outcome:
         self.frames = {}  # (backend, handle) -> df
         self.sql_texts = {}
         self.stats = {}
+        self.ref_env = {}  # backend -> REF handle environment (for known-finding features)
 
     def add(self, *a, **kw):
         self.findings.append(Finding(*a, **kw))
@@ -243,6 +255,7 @@ def run_program(prog, backends=("pol", "sqlite"), opts=None, be_cache=None) -> O
                 rf.env[st["out"]] = ref_new
                 ref_ok.add(st["out"])
         out.steps_ok[be] = ok_steps
+        out.ref_env[be] = rf.env
         # ---- probes: export and compare
         for h in probes:
             if h not in handles_ok:
@@ -260,6 +273,11 @@ def run_program(prog, backends=("pol", "sqlite"), opts=None, be_cache=None) -> O
             if exp_exc is not None:
                 cls = type(exp_exc).__name__
                 judged = h in ref_ok
+                if be == "pol" and ENGINE_BUG_RE.search(str(exp_exc)) and _has_horizontal(prog):
+                    # D16: a Polars optimizer bug (reproduced without pydiverse.transform, correct with
+                    # optimizations off): horizontal min/max with a literal over join-padded columns
+                    out.excluded[be] = "D16"
+                    continue
                 if be != "pol" and cls in SQL_PERMITTED:
                     out.refused.setdefault(be, (h, cls))
                 elif judged or cls in ("AssertionError", "KeyError", "AttributeError", "IndexError", "RecursionError", "TypeError"):
@@ -287,8 +305,14 @@ def run_program(prog, backends=("pol", "sqlite"), opts=None, be_cache=None) -> O
             if reexport_every and n_exports % reexport_every == 0:
                 try:
                     df2 = rr.export(h)
-                    ordered = h in ref_ok and rf.env[h].seq_ok(mode)
-                    p = compare.frames_equal(df, df2, ordered)
+                    if h in ref_ok:
+                        # cells REF calls undefined (e.g. cum_sum over tied sort keys, where the SQL
+                        # backends break ties randomly on purpose) may differ between two exports
+                        p, _ = compare.compare_with_ref(df2, rf.env[h], mode)
+                        p0, _ = compare.compare_with_ref(df, rf.env[h], mode)
+                        p = p if (p and not p0) else None
+                    else:
+                        p = None
                     if p:
                         out.add("reexport:" + be, be, h, "second export differs: " + p, verb="export")
                     if be != "pol":
